@@ -20,6 +20,8 @@ TABLES = [
     ("L1", "S", 2, 1), ("L2", "S", 2, 2), ("L3", "S", 2, 3), ("D1", "S", 2, 1), ("CR", "S", 2, 1), ("PB", "S", 2, 3),
     ("L1", "S", 3, 1), ("L2", "S", 3, 2), ("D1", "S", 3, 1), ("CR", "S", 3, 1),
     ("L1", "H", 1, 1), ("L2", "H", 1, 2), ("L3", "H", 1, 3), ("B2", "H", 1, 2),
+    # derivative-DOF elements in 1-D, probed on the reference interval [-1, 1] (Jacobian 1): Hermite-3, Bogner-Fox-Schmit
+    ("HE", "H", 1, 3), ("BF", "H", 1, 3),
     ("L1", "H", 2, 1), ("L2", "H", 2, 2), ("L3", "H", 2, 3), ("B2", "H", 2, 2),
     ("L1", "H", 3, 1), ("L2", "H", 3, 2), ("L3", "H", 3, 3), ("B2", "H", 3, 2),
 ]
